@@ -1051,3 +1051,21 @@ func GenCase(t *rapid.T, cfg GenCfg) Case {
 	}
 	return c
 }
+
+// Exported entry points for property-specific generators.
+
+func (g *Gen) Witness(kind string) Val           { return g.fixFully(kind, g.witness(kind)) }
+func (g *Gen) Vary(kind string, w Val) Val       { return g.vary(kind, w) }
+func (g *Gen) P(prob float64, label string) bool { return g.p(prob, label) }
+func (g *Gen) Intn(lo, hi int, label string) int { return g.intn(lo, hi, label) }
+func (g *Gen) SetWitness(n *Node, w Val)         { g.wit[n] = w }
+func (g *Gen) AltRepr(n *Node, v Val) Val        { return g.altRepr(n, v) }
+func (g *Gen) GenTest(kind string, w Val, sat bool, idx int) (TestSpec, bool) {
+	return g.genTest(kind, w, sat, idx)
+}
+
+func (g *Gen) CopyWitness(from, to *Node) {
+	if w, ok := g.wit[from]; ok {
+		g.wit[to] = w
+	}
+}
